@@ -61,6 +61,10 @@ pub struct C10Plan {
     /// 4 JSON of another shape
     #[serde(default)]
     pub junk: Vec<(u32, u8)>,
+    /// decode1090 process scenario only: the recording is in the older format
+    /// (an `rssi` field per line instead of a `metadata` list)
+    #[serde(default)]
+    pub legacy: bool,
 }
 
 pub struct C10;
@@ -290,6 +294,7 @@ impl Scenario for C10 {
             flush: rng.chance(0.8),
             sched: SchedSpec::generate(rng, 4 * n + 16),
             junk: Vec::new(),
+            legacy: false,
         }
     }
 
@@ -885,14 +890,16 @@ pub fn execute(plan: &C10Plan) -> Outcome<C10Plan> {
             real == model_dec
         };
         out.count(if agree { "model_agrees" } else { "model_disagrees" }, 1);
-        // For a monotone history the grouping itself is fixed by the property:
-        // a reception's window "has closed" as soon as an arrival stamped at or
-        // after first arrival + window has been consumed, so a group holds the
-        // first arrival and the same-frame arrivals up to that point, no more
-        // (a group that outlives its window swallows receptions that belong to
-        // the next record) and no fewer. The order of records whose windows
-        // close on the same arrival is not fixed, hence the comparison as sets.
-        if monotone && !crashed && end == RunEnd::Quiescent && sim.panics.is_empty() {
+        // The grouping itself is fixed by the property: a reception's window "has
+        // closed" as soon as an arrival stamped at or after first arrival +
+        // window has been consumed, so a group holds the first arrival and the
+        // same-frame arrivals up to that point, no more (a group that outlives
+        // its window swallows receptions that belong to the next record) and no
+        // fewer. For histories with decreasing stamps "now" is the stamp of the
+        // arrival being consumed: that is the executable reference model the
+        // property's quantifier names. The order of records whose windows close
+        // on the same arrival is not fixed, hence the comparison as sets.
+        if !crashed && end == RunEnd::Quiescent && sim.panics.is_empty() {
             let mut a: Vec<Vec<u32>> = real.clone();
             let mut b: Vec<Vec<u32>> = if sh.flush_sent { model_dec.clone() } else { model_dec.iter().take(real.len()).cloned().collect() };
             if sh.flush_sent {
@@ -910,9 +917,10 @@ pub fn execute(plan: &C10Plan) -> Outcome<C10Plan> {
                 let want = b.iter().find(|g| g.first() == extra.first()).cloned().unwrap_or_default();
                 viol = Some(Violation::new(
                     "c10.5-timeliness",
-                    "group-differs-from-window",
+                    if monotone { "group-differs-from-window" } else { "group-differs-from-reference-model" },
                     format!(
-                        "monotone history, window {} ms: record with receptions {:?} was emitted, but the window opened by reception {} closes with receptions {:?} (stamps ms: {:?})",
+                        "{} history, window {} ms: record with receptions {:?} was emitted, but the window opened by reception {} closes with receptions {:?} (stamps ms: {:?})",
+                        if monotone { "monotone" } else { "non-monotone" },
                         w,
                         extra,
                         extra.first().copied().unwrap_or(0),
@@ -1078,6 +1086,7 @@ impl Scenario for Decode1090Proc {
             }
             p.junk.sort();
         }
+        p.legacy = rng.chance(0.3);
         p
     }
     fn execute(&self, plan: &C10Plan) -> Outcome<C10Plan> {
@@ -1123,7 +1132,7 @@ impl Scenario for Decode1090Proc {
                 ("input file", "stub (written by the driver before the process starts; damaged lines injected: non-UTF-8 bytes, non-JSON text, a line cut short, an empty line, JSON of another shape)"),
             ],
             assumptions: vec!["output timestamps are compared with a tolerance of 10 µs (JSON text round trip)", "a reception on a damaged line is not in the file; every reception on an intact line is"],
-            fault_kinds: vec!["nonmonotone_arrival", "duplicate_delivery", "eof_with_open_groups", "damaged_line"],
+            fault_kinds: vec!["nonmonotone_arrival", "duplicate_delivery", "eof_with_open_groups", "damaged_line", "legacy_format"],
             probes: vec!["records_printed", "monotone_history", "eof_with_3_open_groups", "reopened_after_expiry"],
         }
     }
@@ -1157,6 +1166,12 @@ pub fn execute_decode1090(plan: &C10Plan) -> Outcome<C10Plan> {
             ji += 1;
         }
         let fi = r.frame as usize % frames.len();
+        if plan.legacy {
+            // older recordings: no metadata list, an rssi per line (which carries
+            // the reception id here: small integers are exact in f32)
+            text.extend_from_slice(format!("{{\"timestamp\":{},\"frame\":\"{}\",\"rssi\":{}.0}}\n", ts_f64(r.ts_us), plan.frames[fi], r.id).as_bytes());
+            continue;
+        }
         text.extend_from_slice(format!(
             "{{\"timestamp\":{},\"frame\":\"{}\",\"metadata\":[{{\"system_timestamp\":{},\"serial\":{},\"name\":\"rx{}\"}}]}}\n",
             ts_f64(r.ts_us),
@@ -1215,7 +1230,15 @@ pub fn execute_decode1090(plan: &C10Plan) -> Outcome<C10Plan> {
         let Ok(v) = serde_json::from_str::<serde_json::Value>(line) else { continue };
         let frame = world::unhex(v["frame"].as_str().unwrap_or(""));
         let ts = v["timestamp"].as_f64().unwrap_or(0.0);
-        let ids = v["metadata"].as_array().map(|a| a.iter().map(|m| m["serial"].as_u64().unwrap_or(u64::MAX) as u32).collect()).unwrap_or_default();
+        let legacy = plan.legacy;
+        let ids = v["metadata"]
+            .as_array()
+            .map(|a| {
+                a.iter()
+                    .map(|m| if legacy { m["rssi"].as_f64().map(|x| x as u32).unwrap_or(u32::MAX) } else { m["serial"].as_u64().unwrap_or(u64::MAX) as u32 })
+                    .collect()
+            })
+            .unwrap_or_default();
         recs.push(Rec { frame, ts, ids });
     }
     out.count("records_printed", recs.len() as u64);
@@ -1325,6 +1348,9 @@ pub fn execute_decode1090(plan: &C10Plan) -> Outcome<C10Plan> {
     if plan.receptions.windows(2).any(|x| x[0].frame == x[1].frame && x[0].rx == x[1].rx) {
         out.count("duplicate_delivery", 1);
     }
+    if plan.legacy {
+        out.count("legacy_format", 1);
+    }
     let mut sig = Fnv::new();
     for r in &plan.receptions {
         sig.u64(((r.frame as u64) << 48) ^ (ms_of(r.ts_us) << 8) ^ r.rx as u64);
@@ -1424,6 +1450,7 @@ fn grid_history(len_max: u8, g: u64) -> C10Plan {
         flush: true,
         sched: SchedSpec::fifo(),
         junk: Vec::new(),
+        legacy: false,
     }
 }
 
